@@ -753,3 +753,145 @@ def c20_risk(case, impl_case):
                                  % ("[K14 lazy child] " if lazy and row == first[0] else "", n.path, pos[row], row, first[0]))
                     break
     return fails
+
+
+# ---------------------------------------------------------------- C18: reports vs node histories
+def c18_reports(case, impl_case, extra):
+    """every report of the finished backtest recomputed from the raw node histories of the same run"""
+    state = impl_case["steps"][-1]["state"]
+    root, nodes, _ = build_tree(state)
+    if root is None:
+        return []
+    fails = []
+    rid = case["tree"][1]
+    mults = mults_of_case(case)
+
+    def nm(i):
+        return "n%03d" % int(i)
+    members = []          # (full name, Node) in Node.members order, paper copies excluded
+
+    def visit(n, full):
+        members.append((full, n))
+        for k in n.kids:
+            visit(k, full + ">" + nm(k.path.split(".")[-1]))
+    visit(root, nm(rid))
+    fi = bool(case["tree"][2])
+    rv = {k[3:]: [tok_val(t) for t in v] for k, v in extra.items() if k.startswith("RV ")}
+    rt = sorted(((int(k[3:]), v) for k, v in extra.items() if k.startswith("RT ")), key=lambda kv: kv[0])
+
+    def hist(n, what):
+        if n.kind == "S":
+            return n.vals({"values": "h_values", "notls": "h_notls", "positions": "h_positions", "outlays": "h_outlays"}[what])
+        return n.vals({"values": "hg_values", "notls": "hg_notls", "cash": "hg_cash", "prices": "hg_prices"}[what])
+    base = hist(root, "notls" if fi else "values")
+    nrows = len(base)
+
+    def fin(x):
+        return isinstance(x, float) and not (math.isnan(x) or math.isinf(x))
+    # ---- component weights: value (notional) over the root's
+    cols = {k[len("weights:"):]: v for k, v in rv.items() if k.startswith("weights:")}
+    if "REP weights" in extra and extra["REP weights"][0] == "ok":
+        if list(cols) != [f for f, _ in members]:
+            fails.append("weights: columns %s are not the members %s" % (list(cols)[:6], [f for f, _ in members][:6]))
+        for full, n in members:
+            w = cols.get(full)
+            h = hist(n, "notls" if fi else "values")
+            if w is None:
+                continue
+            for i in range(nrows):
+                if fin(base[i]) and base[i] != 0 and fin(w[i]) and not near(w[i] * base[i], h[i], base[i]):
+                    fails.append("weights: %s row %d: weight %r x root %r != node %r" % (full, i, w[i], base[i], h[i]))
+                    break
+    # ---- security weights: same-named securities aggregated; with cash fractions they sum to one
+    secs = [(f, n) for f, n in members if n.kind == "S"]
+    strats = [(f, n) for f, n in members if n.kind == "G"]
+    by_name = {}
+    for f, n in secs:
+        by_name.setdefault(f.split(">")[-1], []).append(n)
+    sw = {k[len("sweights:"):]: v for k, v in rv.items() if k.startswith("sweights:")}
+    if "REP security_weights" in extra and extra["REP security_weights"][0] == "ok":
+        if sorted(sw) != sorted(by_name):
+            fails.append("security_weights: columns %s, securities %s" % (sorted(sw), sorted(by_name)))
+        for name, ns in by_name.items():
+            w = sw.get(name)
+            if w is None:
+                continue
+            for i in range(nrows):
+                tot = sum(hist(n, "notls" if fi else "values")[i] for n in ns)
+                if fin(base[i]) and base[i] != 0 and fin(w[i]) and not near(w[i] * base[i], tot, base[i]):
+                    fails.append("security_weights: %s row %d: %r x root %r != sum of same-named securities %r" % (name, i, w[i], base[i], tot))
+                    break
+        if not fi:
+            for i in range(nrows):
+                if not fin(base[i]) or base[i] == 0 or not all(fin(sw[k][i]) for k in sw):
+                    continue
+                tot = sum(sw[k][i] for k in sw) + sum(hist(n, "cash")[i] for _, n in strats) / base[i]
+                if abs(tot - 1.0) > 1e-9 * max(1.0, sum(abs(sw[k][i]) for k in sw)):
+                    fails.append("security weights + cash fractions sum to %r on row %d" % (tot, i))
+                    break
+    # ---- positions per ticker
+    pos = {k[len("positions:"):]: v for k, v in rv.items() if k.startswith("positions:")}
+    agg_pos = {name: [sum(hist(n, "positions")[i] for n in ns) for i in range(nrows)] for name, ns in by_name.items()}
+    if "REP positions" in extra and extra["REP positions"][0] == "ok":
+        if sorted(pos) != sorted(by_name):
+            fails.append("positions: columns %s, securities %s" % (sorted(pos), sorted(by_name)))
+        for name in by_name:
+            if name in pos and any(not near(a, b) for a, b in zip(pos[name], agg_pos[name])):
+                fails.append("positions: %s is not the sum of the positions of the securities of that name" % name)
+    # ---- transactions: quantities cumulate to the positions; prices are execution prices, spread included
+    if "REP result_get_transactions" in extra and extra["REP result_get_transactions"][0] == "ok":
+        cum = {name: [0.0] * nrows for name in by_name}
+        last = (-1, "")
+        for k, toks in rt:
+            row, name, q, p = int(toks[0]), toks[1], tok_val(toks[2]), tok_val(toks[3])
+            if (row, name) <= last:
+                fails.append("transactions: not sorted by (date, security) at entry %d" % k)
+            last = (row, name)
+            if name not in cum:
+                fails.append("transactions: unknown security %s" % name)
+                continue
+            if q == 0:
+                fails.append("transactions: zero quantity listed for %s on row %d" % (name, row))
+            for i in range(row, nrows):
+                cum[name][i] += q
+            ns = by_name[name]
+            ms = {mult_of(case, n.path, mults) for n in ns}
+            out_tot = sum(hist(n, "outlays")[row] for n in ns)
+            if len(ms) == 1 and fin(p) and fin(out_tot):
+                m = ms.pop()
+                if not near(p * q * m, out_tot, out_tot):
+                    fails.append("transactions: %s row %d: quantity %r x price %r x multiplier %r = %r but the capital spent on the trade (outlays, spread included) is %r"
+                                 % (name, row, q, p, m, p * q * m, out_tot))
+        for name in by_name:
+            for i in range(nrows):
+                if not near(cum[name][i], agg_pos[name][i], max(abs(x) for x in agg_pos[name]) if agg_pos[name] else 1.0):
+                    fails.append("transactions: quantities of %s cumulate to %r on row %d, recorded position %r" % (name, cum[name][i], i, agg_pos[name][i]))
+                    break
+    # ---- herfindahl index, turnover, result price
+    if "hhi:-" in rv and sw:
+        for i in range(nrows):
+            if all(fin(sw[k][i]) for k in sw):
+                want = sum(sw[k][i] ** 2 for k in sw)
+                if not near(rv["hhi:-"][i], want):
+                    fails.append("herfindahl_index row %d: %r, sum of squared security weights %r" % (i, rv["hhi:-"][i], want))
+                    break
+    if "turnover:-" in rv:
+        vals = hist(root, "values")
+        for i in range(nrows):
+            outs = [sum(hist(n, "outlays")[i] for n in ns) for ns in by_name.values()]
+            p, ng = sum(o for o in outs if o >= 0), abs(sum(o for o in outs if o < 0))
+            if fin(vals[i]) and vals[i] != 0:
+                want = min(p, ng) / vals[i]
+                if fin(rv["turnover:-"][i]) and not near(rv["turnover:-"][i], want):
+                    fails.append("turnover row %d: %r, min(buys, sells) / NAV = %r" % (i, rv["turnover:-"][i], want))
+                    break
+                if not fin(rv["turnover:-"][i]):
+                    fails.append("turnover row %d is %r, min(buys, sells) / NAV = %r" % (i, rv["turnover:-"][i], want))
+                    break
+    if "resprice:-" in rv:
+        if any(not near(a, b) for a, b in zip(rv["resprice:-"], hist(root, "prices"))) or len(rv["resprice:-"]) != nrows:
+            fails.append("Result.prices is not the strategy's index")
+    for k, v in extra.items():
+        if k.startswith("REP ") and v[0] != "ok":
+            fails.append("report %s raised %s" % (k[4:], " ".join(v[1:])))
+    return fails
